@@ -460,6 +460,10 @@ class NetworkService(ModelElement):
         if ns.node_id == self.node_id:
             # two handles of one service may carry different names (e.g. after a rename)
             raise TopologyException(f"Network service {self.name} cannot peer with itself")
+        if self.name + '-' + ns.name + '-link' in self.topo.links:
+            # e.g. services 'aa' / 'bb-cc' and 'aa-bb' / 'cc' derive the same link name
+            raise TopologyException(f"Unable to peer {self.name} and {ns.name}: the topology already has a link "
+                                    f"{self.name}-{ns.name}-link")
         self_iface = self.add_interface(name=self.name + '-' + ns.name, itype=InterfaceType.ServicePort, **kwargs)
         try:
             other_iface = ns.add_interface(name=ns.name + '-' + self.name, itype=InterfaceType.ServicePort)
@@ -469,8 +473,15 @@ class NetworkService(ModelElement):
             self._interfaces = list(filter((lambda x: x.node_id != self_iface.node_id), self._interfaces))
             raise
         # link them together with L2Path
-        peer_link = Link(name=self_iface.name + '-link', topo=self.topo, etype=ElementType.NEW,
-                         interfaces=[self_iface, other_iface], ltype=LinkType.L2Path)
+        try:
+            peer_link = Link(name=self_iface.name + '-link', topo=self.topo, etype=ElementType.NEW,
+                             interfaces=[self_iface, other_iface], ltype=LinkType.L2Path)
+        except Exception:
+            # the link could not be created (e.g. its derived name is too long) - remove both ports again
+            for iface, owner in ((self_iface, self), (other_iface, ns)):
+                self.topo.graph_model.remove_cp_and_links(node_id=iface.node_id)
+                owner._interfaces = list(filter((lambda x: x.node_id != iface.node_id), owner._interfaces))
+            raise
 
     def unpeer(self, ns) -> None:
         """
